@@ -188,3 +188,71 @@ Example C12_example_prefix :
   pre_get_in ex_regs (Some s_Adhoc, s_E) = RUnknownCategory /\
   pre_get_in ex_regs (Some ex_CORE, ex_Name) = ROk 2.
 Proof. vm_compute. repeat split; reflexivity. Qed.
+
+(* ---- the whole program (Whole/Main.v [tempren_main]; proofs in Whole/RegOrderWhole.v) ---- *)
+From Tempren Require Import Py.PathLib Tpl.Alias FS.Model Pipe.Pipeline Pipe.FrontCompile.
+From Tempren Require Import Whole.Library Whole.Render Whole.Gather Whole.Main Whole.RegOrderWhole Whole.Examples.
+
+(* The compiler and the program read a registry value only through name resolution ([get], C12), what each factory
+   is ([kind_of]) and the nesting depth. *)
+Theorem C12_whole_reads_registry_through_get : forall upper lower R1 R2,
+  (forall q, get (tr_names R1) q = get (tr_names R2) q) /\
+  (forall f, kind_of R1 f = kind_of R2 f) /\
+  tr_depth R1 = tr_depth R2 ->
+  (forall text, compile R1 text = compile R2 text) /\
+  forall o text dirs s, tempren_main upper lower R1 o text dirs s = tempren_main upper lower R2 o text dirs s.
+Proof. exact reads_registry_through_get. Qed.
+Print Assumptions C12_whole_reads_registry_through_get.
+
+(* Registration order is invisible to the program.  rows = (category spelling, tag name, factory id) with what the
+   factory is (a class tag: signature, require_context, configure's verdict - or an alias text); two lists of rows
+   that are permutations of one another and both register (registration succeeds in every order or in none:
+   C12_whole_registers_in_any_order) give registries on which EVERY template text compiles to the same bound tree or
+   fails with the same error (in particular: compiles with one iff with the other), and on which the program gives
+   the same result for every text, option, input list, tree and listing order.
+   fid_functional: rows with one factory id carry one factory (an id is the identity of a TagFactory object); it
+   holds when the ids are pairwise distinct (C12_whole_distinct_fids). *)
+Theorem C12_whole_registration_order : forall upper lower d rows1 rows2 R1 R2,
+  Permutation rows1 rows2 -> fid_functional rows1 ->
+  tagreg_of_rows d rows1 = Some R1 -> tagreg_of_rows d rows2 = Some R2 ->
+  (forall text, compile R1 text = compile R2 text) /\
+  (forall text, compiles R1 text = compiles R2 text) /\
+  (forall o text dirs s,
+     tempren_main upper lower R1 o text dirs s = tempren_main upper lower R2 o text dirs s).
+Proof. exact whole_registration_order. Qed.
+Print Assumptions C12_whole_registration_order.
+
+Theorem C12_whole_registers_in_any_order : forall d rows1 rows2 R1,
+  Permutation rows1 rows2 -> tagreg_of_rows d rows1 = Some R1 -> exists R2, tagreg_of_rows d rows2 = Some R2.
+Proof. exact rows_perm_register. Qed.
+Print Assumptions C12_whole_registers_in_any_order.
+
+Theorem C12_whole_distinct_fids : forall rows, NoDup (map row_fid rows) -> fid_functional rows.
+Proof. exact NoDup_fid_functional. Qed.
+Print Assumptions C12_whole_distinct_fids.
+
+(* the core library (Whole/Library.v [core_rows]) registered in ANY order: a registry exists, and it is
+   indistinguishable from [core_reg] for the compiler and for the program *)
+Theorem C12_whole_core_any_order : forall upper lower rows,
+  Permutation core_rows rows ->
+  exists R, tagreg_of_rows core_depth rows = Some R /\
+    (forall text, compile R text = compile core_reg text) /\
+    (forall o text dirs s,
+       tempren_main upper lower R o text dirs s = tempren_main upper lower core_reg o text dirs s).
+Proof. exact whole_core_any_order. Qed.
+Print Assumptions C12_whole_core_any_order.
+
+(* the core rows reversed (Text.SplitCase first, Core.Name last): another registry value (the categories stand in
+   the other order), the same compiled tree for %Upper{%Base()}_%Count(start=3,step=2)%Ext(), the same error for
+   %Nme(), and the same run on the example tree *)
+Example C12_whole_example :
+  match tagreg_of_rows core_depth (rev core_rows) with
+  | Some R =>
+    map cat_name (tr_names R) = [s_Text; s_Core] /\ map cat_name (tr_names core_reg) = [s_Core; s_Text] /\
+    compile R t_upper_count = compile core_reg t_upper_count /\ compiles R t_upper_count = true /\
+    compile R t_unknown_tag = compile core_reg t_unknown_tag /\ compiles R t_unknown_tag = false /\
+    let run X := tempren_main ascii_upper_str ascii_lower_str X (ex_options MName true true) t_upper_count ex_dirs ex_tree in
+    run R = run core_reg /\ r_status (run R) = 0%Z /\ length (r_calls (run R)) = 4%nat
+  | None => False
+  end.
+Proof. vm_compute. repeat split; reflexivity. Qed.
